@@ -168,6 +168,7 @@ def all_cases(ctx):
 
 def run(ctx):
     ctx.corpus(check)
+    ctx.known(check)
     ctx.cases(all_cases(ctx), check, label="all-occupations")
     ctx.note("bounded_exhaustive", "catalogue supercells (<=10 mobile sites; quick: every second, <=8 sites), with and without vacancy: every occupation, every reported transition")
     ctx.given(cases(max_sites=16), check, quick=300, thorough=6000)
